@@ -8,7 +8,7 @@ import vlib
 
 POOL = {1: "0", 2: "2", 3: "75", 4: "50", 5: "0.3", 6: "7", 7: "750", 8: "-75", 9: "+75", 10: ".5", 11: "1.5", 12: "1e3", 13: "999999",
         14: "1000000", 15: "1000001", 16: "16777215", 17: "16777217", 18: "2147483647", 19: "-2147483648", 20: "0.1", 21: "1e-7",
-        22: "1.234567", 23: "100.5", 24: "33.3333333", 25: "+.5", 26: "-0", 27: "+26", 28: "1E2", 29: "2", 30: "+1", 31: "1e37"}
+        22: "1.234567", 23: "100.5", 24: "33.3333333", 25: "+.5", 26: "-0", 27: "+26", 28: "1E2", 29: "2", 30: "+1", 31: "1e37", 32: "3000000000", 33: "-99999999999"}
 PLACEHOLDERS = {"~E~": "é", "~Z~": "字", "~M~": "😀", "~L~": "«", "~R~": "»"}
 F32_EPS = Fraction(1, 2 ** 23)
 F32_MAX = Fraction(2 ** 128 - 2 ** 104)
@@ -209,7 +209,10 @@ class Concretiser:
             self.mark((key, "t"))
             self.emit("@IMPORT " if it["form"] == "STRING" else "@import ")
             self.mark((key, "p"))
-            self.emit(self.url(it["path"]) if it["form"] == "url" else self.string(it["path"]))
+            if it["form"] == "URLSTR":
+                self.emit("Url(" + self.rnd.choice(["", " "]) + self.string(it["path"]) + self.rnd.choice(["", " "]) + ")")
+            else:
+                self.emit(self.url(it["path"]) if it["form"] == "url" else self.string(it["path"]))
             caps = it["form"] == "STRING"
             if it["layer"] != "none":
                 kw = "LAYER" if caps else "layer"
